@@ -109,17 +109,14 @@ func factsCorr(c *hc.Ctx) {
 		}
 		c.Evals++
 		c.Count("facts:getsite-recycled")
+		// raw observation: per field the normalised value after the site under junk filling 0 and 1;
+		// the Lean driver decides (a field whose two values differ kept what the pool held) and
+		// confronts the observation with its own verdict on the extracted statement sequence
 		var parts []string
 		for i, f := range fields {
-			st := "det"
-			if vals[0][i] != vals[1][i] {
-				st = "STALE"
-				c.Fail("pool-stale-field:"+typ+"."+f, fmt.Sprintf("%s (object %s): field %s keeps what the pool held: %s vs %s", s[0], s[1], f, vals[0][i], vals[1][i]),
-					map[string]any{"site": s[0], "object": s[1], "field": f, "junk0": vals[0][i], "junk1": vals[1][i]})
-			}
-			parts = append(parts, f+"="+st)
+			parts = append(parts, f+"="+vals[0][i]+"|"+vals[1][i])
 		}
-		c.Case("GET "+s[0]+" "+s[1], "=", typ+" "+strings.Join(parts, " "))
+		c.Case("GETOBS "+s[0]+" "+s[1]+" "+typ+" "+strings.Join(parts, " "), "!", "pool")
 		c.Distinct("get:" + s[0] + s[1])
 	}
 }
@@ -414,6 +411,24 @@ func plate(n int, dx float64) (outer, holes *canvas.Path) {
 	return
 }
 
+// plateWithHoles: the plate as one path, outer contour counter clockwise, holes clockwise (built by
+// hand: the generator must not depend on the operations under test)
+func plateWithHoles(n int, dx float64) *canvas.Path {
+	w := 3*float64(n) + 1
+	p := canvas.Rectangle(w, w).Translate(dx, 0)
+	for i := 0; i < n; i++ {
+		for j := 0; j < n; j++ {
+			x, y := dx+1+3*float64(i), 1+3*float64(j)
+			p.MoveTo(x, y)
+			p.LineTo(x, y+2)
+			p.LineTo(x+2, y+2)
+			p.LineTo(x+2, y)
+			p.Close()
+		}
+	}
+	return p
+}
+
 func genNested(c *hc.Ctx) c20ops.Op {
 	data := func(p *canvas.Path) []float64 { return append([]float64(nil), p.Data()...) }
 	n := 1 + c.Intn(9)
@@ -431,8 +446,7 @@ func genNested(c *hc.Ctx) c20ops.Op {
 		return c20ops.Op{Kind: "Not", A: data(outer), B: data(holes)}
 	case 2:
 		c.Count("nested:plate-xor-shifted")
-		o2, h2 := plate(n, dx+1.5)
-		return c20ops.Op{Kind: "Xor", A: data(outer.Not(holes)), B: data(o2.Not(h2))}
+		return c20ops.Op{Kind: "Xor", A: data(plateWithHoles(n, dx)), B: data(plateWithHoles(n, dx+1.5))}
 	case 3:
 		c.Count("nested:rings")
 		p := &canvas.Path{}
@@ -445,7 +459,7 @@ func genNested(c *hc.Ctx) c20ops.Op {
 	default:
 		c.Count("nested:plate-or-islands")
 		_, islands := plate(n, dx+0.5)
-		return c20ops.Op{Kind: "Or", A: data(outer.Not(holes)), B: data(islands.Scale(0.3, 0.3).Translate(0.7*dx, 0))}
+		return c20ops.Op{Kind: "Or", A: data(plateWithHoles(n, dx)), B: data(islands.Scale(0.3, 0.3).Translate(0.7*dx, 0))}
 	}
 }
 
@@ -626,6 +640,15 @@ func determinism(c *hc.Ctx, env *c20ops.Env, ops []c20ops.Op) {
 		}
 	}
 	compare(c, "16-goroutines-gc", nested, nbase, c20ops.RunConcGC(env, nested, 16))
+	if c.Tier != "quick" {
+		// larger histories: 64 goroutines under GC pressure, three rounds, pools re-poisoned with the
+		// other junk filling before every round
+		for round := 0; round < 3; round++ {
+			canvas.VerifPoolPoison(2048, round%2)
+			compare(c, "64-goroutines-gc", ops, base, c20ops.RunConcGC(env, ops, 64))
+			compare(c, "64-goroutines-gc", nested, nbase, c20ops.RunConcGC(env, nested, 64))
+		}
+	}
 	// pools filled with junk objects
 	canvas.VerifPoolPoison(512, 0)
 	compare(c, "after-pool-junk", ops, base, c20ops.RunSeq(env, ops, order))
@@ -758,8 +781,25 @@ func raceRun(c *hc.Ctx, d dirs, env *c20ops.Env, ops []c20ops.Op) {
 	if n > len(ops) {
 		n = len(ops)
 	}
-	batch := append([]c20ops.Op(nil), ops[:n]...)
-	for i := 0; i < 32; i++ { // results with nested contours: the tracer walks prev chains
+	// blocks of the same short call first: the goroutines start together and the split is static, so
+	// all 16 are inside the same function at the same time (FindSystemFont and LoadFont take
+	// microseconds to milliseconds; spread out they would rarely overlap)
+	var batch []c20ops.Op
+	for i := 0; i < 64; i++ {
+		batch = append(batch, c20ops.Op{Kind: "FindSystemFont", S: "DejaVu Serif"})
+	}
+	for i := 0; i < 32; i++ {
+		batch = append(batch, c20ops.Op{Kind: "LoadNoname"})
+	}
+	for i := 0; i < 16; i++ {
+		batch = append(batch, c20ops.Op{Kind: "LoadFont"})
+	}
+	batch = append(batch, ops[:n]...)
+	nn := 32
+	if c.Tier != "quick" {
+		nn = 96
+	}
+	for i := 0; i < nn; i++ { // results with nested contours: the tracer walks prev chains
 		batch = append(batch, genNested(c))
 	}
 	nr := 0
@@ -769,8 +809,8 @@ func raceRun(c *hc.Ctx, d dirs, env *c20ops.Env, ops []c20ops.Op) {
 			nr++
 		}
 	}
-	for i := 0; i < 16; i++ {
-		batch = append(batch, c20ops.Op{Kind: "LoadFont"}, c20ops.Op{Kind: "LoadNoname"}, c20ops.Op{Kind: "FindSystemFont", S: "DejaVu Serif"})
+	for _, op := range batch { // what ran under the race detector (each call twice, 16 goroutines)
+		c.Count("race:op:" + op.Kind)
 	}
 	bf, of := filepath.Join(d.run, "race-batch.json"), filepath.Join(d.run, "race-out.json")
 	if err := c20ops.SaveBatch(bf, batch); err != nil {
